@@ -21,23 +21,23 @@ def J(scen, workers=W124, shards=1, lane='plain', **kw):
 PLANS = {
     'C01': {'jobs': [J('spawn', W124, 2), J('spawnp', [2, 4], 2), J('spawn', [2, 4], 1, 'asan'), J('spawnp', [4], 1, 'asan'),
                      J('spawn', [16], 1, thorough_only=True), J('spawn', [2, 4], 1, 'nosteal', thorough_only=True),
-                     J('spawn', [2, 4], 1, 'cbsteal', thorough_only=True), J('spawn', [2, 4], 1, 'randsteal', thorough_only=True)]},
-    'C02': {'jobs': [J('park', W124, 4), J('park', [2], 1, 'asan')]},
-    'C05': {'jobs': [J('mutex', W124, 2), J('mutexc', W124, 2), J('mutexc', [2, 4], 1, 'asan'), S('hsmutex', [2, 4], 2)]},
-    'C06': {'jobs': [J('chan', W124, 4), J('chan', [2], 2, 'asan')]},
+                     J('spawn', [2, 4], 1, 'cbsteal', thorough_only=True), J('spawn', [2, 4], 1, 'randsteal', thorough_only=True), S('joinrace', [2, 4], 1)]},
+    'C02': {'jobs': [J('park', W124, 4), J('park', [2], 1, 'asan'), S('parkrace', [2, 4], 2)]},
+    'C05': {'jobs': [J('mutex', W124, 2), J('mutexc', W124, 2), J('mutexc', [2, 4], 1, 'asan'), S('hsmutex', [2, 4], 2), S('lockrace', [2, 4], 1)]},
+    'C06': {'jobs': [J('chan', W124, 4), J('chan', [2], 2, 'asan'), S('chanrace', [1, 2, 4], 2)]},
     'C07': {'jobs': [J('dis', W124, 3), J('disrx', W124, 1), J('dis', [2], 1, 'asan'), S('disrace', W124, 2)]},
     'C08': {'jobs': [J('tmr', W124, 3), J('tmrmix', W124, 1), J('tmr', [2, 4], 1, 'asan'), S('tmrrace', W124, 2)]},
     'C09': {'jobs': [J('can', W124, 3), J('mutexc', [2], 1), J('semc', [1, 2], 1), J('cvc', [2], 1), J('rwc', [2], 1), J('iocan', [2], 1),
                      J('can', [2, 4], 1, 'asan'), S('hsmutex', [2], 1), S('hssem', [2], 1)]},
-    'C10': {'jobs': [J('sem', W124, 2), J('semc', W124, 1), J('flag', W124, 1), J('semc', [2], 1, 'asan'), S('hssem', [2, 4], 2)]},
-    'C11': {'jobs': [J('cv', W124, 2), J('cvc', W124, 1), J('bar', W124, 1), J('cvc', [2], 1, 'asan')]},
+    'C10': {'jobs': [J('sem', W124, 2), J('semc', W124, 1), J('flag', W124, 1), J('semc', [2], 1, 'asan'), S('hssem', [2, 4], 2), S('semrace', [2, 4], 1)]},
+    'C11': {'jobs': [J('cv', W124, 2), J('cvc', W124, 1), J('bar', W124, 1), J('cvc', [2], 1, 'asan'), S('cvrace', [2, 4], 2)]},
     'C12': {'jobs': [J('rwseq', [1], 2), J('rw', W124, 2), J('rwc', W124, 2), J('rwseq', [1], 1, 'rel'), J('rw', [2], 1, 'rel'),
                      J('rw', [2, 4], 1, 'asan', thorough_only=True)]},
     'C13': {'jobs': [J('pan', W124, 3), J('pan', [2, 4], 2, 'asan')]},
     'C14': {'jobs': [J('scope', W124, 3), J('selc', W124, 1), J('scope', [2, 4], 1, 'asan'), J('selc', [2], 1, 'asan')]},
     'C15': {'jobs': [J('cls', W124, 3), J('pan', [2], 2), J('cls', [2, 4], 1, 'asan')]},
-    'C16': {'jobs': [J('sel', W124, 2), J('cq', W124, 2), J('cq', [2, 4], 1, 'asan')]},
-    'C17': {'jobs': [J('io', W124, 2), J('tcp', W124, 1), J('dgram', W124, 1), J('io', [2], 1, 'asan'), J('tcp', [2], 1, 'asan')]},
+    'C16': {'jobs': [J('sel', W124, 2), J('cq', W124, 2), J('cq', [2, 4], 1, 'asan'), S('cqrace', [2, 4], 2)]},
+    'C17': {'jobs': [J('io', W124, 2), J('tcp', W124, 1), J('dgram', W124, 1), J('io', [2], 1, 'asan'), J('tcp', [2], 1, 'asan'), S('iorace', [1, 2, 4], 2)]},
     'C18': {'jobs': [J('iot', W124, 3), J('iocan', W124, 2), J('iot', [2], 1, 'asan')]},
     'C03': {'engine': 'q', 'jobs': [J('q', lane='q'), J('q', lane='qasan'), J('q', lane='qtsan')]},
     'C04': {'engine': 'q', 'jobs': [J('q', lane='q'), J('q', lane='qasan')]},
